@@ -20,6 +20,7 @@ NA = {
 
 # engine -> (kind text)
 ENGINES = {
+ "lifecycle": (["C15"], "token scheduler over simgen-instrumented sdk/trace, sdk/metric, sdk/log providers with stock processors/readers/exporters behind thin counting wrappers"),
  "metricsim": (["C02","C08","C12"], "token scheduler over simgen-instrumented sdk/metric and internal/aggregate; delta + cumulative ManualReader, optional PeriodicReader with scripted exporter; bit-decoded conservation oracle, joint collection points"),
  "spanlin": (["C10"], "token scheduler over simgen-instrumented sdk/trace; recording SpanProcessors; porcupine linearizability check against a sequential span model; runtime/trace toggled per seed block"),
  "bsp": (["C01"], "token scheduler over simgen-instrumented sdk/trace inside a synctest bubble; scripted SpanExporter"),
@@ -27,6 +28,10 @@ ENGINES = {
 }
 
 CHECKS = {
+ "C15": dict(engine="lifecycle",
+   text="seeded search over sequences and interleavings of Register/Unregister (of registered, unregistered and never-registered processors), Tracer/Meter/Logger creation, Start/End, Add, Emit, Collect, ForceFlush and Shutdown (repeated, concurrent, with background / cancelled / expiring contexts) on the three SDK providers with the stock processors, readers and exporters including nil exporters; oracle: may/must membership windows for span delivery, shutdown at most once ever and exactly once by the time Unregister / provider Shutdown returned nil, no-op tracers and nothing written by the stock exporters after Shutdown, no panic (including panics in SDK-spawned goroutines), no deadlock, no call that never returns",
+   ref="DESIGN.md §3 C15",
+   note="stock exporters run for real (stdout exporters write to a stamped in-memory writer); known findings C15-K1/K2 are reported as KNOWN-FINDING"),
  "C02": dict(engine="metricsim",
    text="seeded search over interleavings of Add/Record from several goroutines with Collect on a delta and a cumulative ManualReader, a PeriodicReader's interval exports, ForceFlush and the final Shutdown collection; every increment of an instrument is a distinct power of two, so each reported value names exactly the set of measurements it contains; oracle: each measurement in exactly one delta collection, within its may/must window, seen by every reader, cumulative never forgets, monotonic sums never decrease, flush/shutdown visibility",
    ref="DESIGN.md §3 C02",
